@@ -67,6 +67,24 @@ func runC24(c *core.Ctx) {
 
 	// who receives / sends
 	recvIn, sendIn := map[string]bool{}, map[string]bool{}
+	// a helper method called only from run is run's code
+	defer func() {}()
+	liftToRun := func(set map[string]bool) {
+		for name := range set {
+			if name == "run" {
+				continue
+			}
+			for _, m := range methods {
+				if m.Name() != name {
+					continue
+				}
+				delete(set, name)
+				for _, n := range accountable(c, m, func(n string) bool { return strings.HasSuffix(n, ").run") }) {
+					set[n[strings.LastIndex(n, ".")+1:]] = true
+				}
+			}
+		}
+	}
 	for _, m := range methods {
 		for _, f := range an.WithClosures(m) {
 			an.Instrs(f, func(in ssa.Instruction) {
@@ -100,6 +118,8 @@ func runC24(c *core.Ctx) {
 		sort.Strings(k)
 		return strings.Join(k, ",")
 	}
+	liftToRun(recvIn)
+	liftToRun(sendIn)
 	c.Result(keys(recvIn) == "run", "C24.b", "WHO", "Queue.batchCh:receivers", "", "batchCh is received from only in run", "batchCh is received from in: "+keys(recvIn), nil)
 	c.Result(keys(sendIn) == "run", "C24.b", "WHO", "Queue.sendCh:senders", "", "sendCh is sent to only in run", "sendCh is sent to in: "+keys(sendIn), nil)
 
